@@ -436,6 +436,10 @@ func (g *Generator) generateUnwrapMapMarshal(
 		// For scalar types, marshal the array directly with json
 		gf.P("// Marshal the unwrap field directly (the array of scalars)")
 		gf.P("arrayData, err := json.Marshal(wrapper.Get", unwrapFieldName, "())")
+		// A wrapper without elements is an empty list, not null
+		gf.P(`if err == nil && string(arrayData) == "null" {`)
+		gf.P(`arrayData = []byte("[]")`)
+		gf.P("}")
 	}
 
 	gf.P("if err != nil {")
@@ -755,7 +759,10 @@ func (g *Generator) generateRootMapUnwrapMarshalJSON(gf *protogen.GeneratedFile,
 		// Root map with message values (no value unwrap)
 		g.generateRootMapMessageValueMarshal(gf, rootUnwrap, fieldName)
 	default:
-		// Root map with scalar values
+		// Root map with scalar values (a map without entries is an empty object, not null)
+		gf.P("if len(x.", fieldName, ") == 0 {")
+		gf.P(`return []byte("{}"), nil`)
+		gf.P("}")
 		gf.P("return json.Marshal(x.", fieldName, ")")
 	}
 
@@ -789,6 +796,10 @@ func (g *Generator) generateRootMapWithValueUnwrapMarshal(
 		gf.P("arrayData, err := json.Marshal(items)")
 	} else {
 		gf.P("arrayData, err := json.Marshal(wrapper.Get", unwrapFieldName, "())")
+		// A wrapper without elements is an empty list, not null
+		gf.P(`if err == nil && string(arrayData) == "null" {`)
+		gf.P(`arrayData = []byte("[]")`)
+		gf.P("}")
 	}
 
 	gf.P("if err != nil {")
@@ -942,7 +953,10 @@ func (g *Generator) generateRootRepeatedUnwrapMarshalJSON(gf *protogen.Generated
 		// Suppress unused variable warning
 		_ = elementTypeIdent
 	} else {
-		// Scalar type - marshal directly
+		// Scalar type - marshal directly (a list without elements is an empty list, not null)
+		gf.P("if len(x.", fieldName, ") == 0 {")
+		gf.P(`return []byte("[]"), nil`)
+		gf.P("}")
 		gf.P("return json.Marshal(x.", fieldName, ")")
 	}
 
